@@ -221,7 +221,8 @@ def apply_op(simu, state, op, k, cfg):
         else:
             state["drop_M"].add(g0)
     elif op == "B":
-        state["boundary"] = not state["boundary"]
+        # boundary groups contribute too: off -> listed after the bulk groups -> listed BEFORE them -> off
+        state["boundary"] = (int(state["boundary"]) + 1) % 3
     elif op == "M":
         other = {"tri4": "quad2", "quad2": "tri4", "mixed": "tri4", "seg3": "seg3", "tri6_2": "tri4", "tetra2": "tetra2"}[state["mesh_kind"]]
         state["mesh_kind"] = other
@@ -235,7 +236,8 @@ def apply_op(simu, state, op, k, cfg):
         state["lag"] = 0
     bulk = simu.mesh.Get_list_groupElem()
     if state["boundary"] and simu.mesh.dim >= 2:
-        simu.groups = bulk + simu.mesh.Get_list_groupElem(simu.mesh.dim - 1)
+        bnd = simu.mesh.Get_list_groupElem(simu.mesh.dim - 1)
+        simu.groups = (bulk + bnd) if int(state["boundary"]) == 1 else (bnd + bulk)
     else:
         simu.groups = None
 
@@ -374,6 +376,8 @@ def main():
         configs.append({"mesh": mesh, "dof_n": dn, "history": [], "perm": perm})
     configs.append({"mesh": "mixed", "dof_n": 1, "history": ["A"], "complex": True})
     configs.append({"mesh": "tri4", "dof_n": 2, "history": ["B", "G"], "complex": True})
+    configs.append({"mesh": "tri4", "dof_n": 2, "history": ["B", "B", "A"]})
+    configs.append({"mesh": "mixed", "dof_n": 1, "history": ["B", "B", "I"]})
     # heterogeneous dtypes across the groups of one slot (every order)
     for order in (["float", "complex"], ["complex", "float"], ["int", "float"], ["int", "complex"]):
         configs.append({"mesh": "mixed", "dof_n": 1, "history": [], "dtypes": order})
